@@ -47,12 +47,12 @@ def modelledSites : List ((String × String × List String) × SiteClass) := [
   (("adaptix/_internal/morphing/dict_provider.py", "DictProvider.provide_loader -> self._make_loader", ["key_loader=key_loader", "value_loader=value_loader", "debug_trail=debug_trail"]), .identityArgs),
   (("adaptix/_internal/morphing/dict_provider.py", "DictProvider.provide_dumper -> self._make_dumper", ["key_dumper=key_dumper", "value_dumper=value_dumper", "debug_trail=debug_trail"]), .identityArgs),
   (("adaptix/_internal/morphing/dict_provider.py", "DefaultDictProvider.provide_loader -> self._make_loader", ["loader=dict_loader"]), .identityArgs),
-  (("adaptix/_internal/morphing/enum_provider.py", "EnumNameProvider.provide_loader -> self._make_loader", ["enum=request.last_loc.type"]), .identityArgs),
-  (("adaptix/_internal/morphing/enum_provider.py", "EnumNameProvider.provide_dumper -> self._make_dumper", ["enum=enum"]), .identityArgs),
+  (("adaptix/_internal/morphing/enum_provider.py", "EnumNameProvider.provide_loader -> self._make_loader", ["enum=request.last_loc.type"]), .modelled "enumNameL"),
+  (("adaptix/_internal/morphing/enum_provider.py", "EnumNameProvider.provide_dumper -> self._make_dumper", ["enum=enum"]), .modelled "enumNameD"),
   (("adaptix/_internal/morphing/enum_provider.py", "EnumValueProvider.provide_loader -> self._make_loader", ["enum=enum", "value_loader=value_loader"]), .identityArgs),
   (("adaptix/_internal/morphing/enum_provider.py", "EnumValueProvider.provide_dumper -> self._make_dumper", ["value_dumper=value_dumper"]), .identityArgs),
-  (("adaptix/_internal/morphing/enum_provider.py", "EnumExactValueProvider.provide_loader -> self._make_loader", ["enum=request.last_loc.type"]), .identityArgs),
-  (("adaptix/_internal/morphing/enum_provider.py", "EnumExactValueProvider.provide_dumper -> self._make_dumper", ["enum=request.last_loc.type"]), .identityArgs),
+  (("adaptix/_internal/morphing/enum_provider.py", "EnumExactValueProvider.provide_loader -> self._make_loader", ["enum=request.last_loc.type"]), .modelled "enumExactL"),
+  (("adaptix/_internal/morphing/enum_provider.py", "EnumExactValueProvider.provide_dumper -> self._make_dumper", ["enum=request.last_loc.type"]), .modelled "enumExactD"),
   (("adaptix/_internal/morphing/enum_provider.py", "FlagByExactValueProvider.provide_loader -> self._make_loader", ["enum=request.last_loc.type"]), .identityArgs),
   (("adaptix/_internal/morphing/enum_provider.py", "FlagByListProvider.provide_loader -> self._make_loader", ["enum=enum", "strict_coercion=strict_coercion"]), .identityArgs),
   (("adaptix/_internal/morphing/enum_provider.py", "FlagByListProvider.provide_dumper -> self._make_dumper", ["enum=request.last_loc.type"]), .identityArgs),
@@ -99,6 +99,7 @@ def modelledFacadeCaches : List (String × String × String) := [
 
 /-- the constructors of `Key`, by name -/
 def keyNames : List String :=
-  ["scalarL", "bytesL", "bytesD", "literalL", "optL", "unionL", "optD", "unionD", "seqL", "seqD", "shape", "modelL", "modelD"]
+  ["scalarL", "bytesL", "bytesD", "literalL", "optL", "unionL", "optD", "unionD", "seqL", "seqD", "shape", "modelL", "modelD",
+   "enumNameL", "enumNameD", "enumExactL", "enumExactD"]
 
 end Adaptix.Cache
